@@ -471,6 +471,8 @@ def _where_arg(where, st):
     where = _tt(where)
     if len(where) == 1 and not st.get("wt"):
         return where[0]
+    if st.get("wl"):
+        return list(where)
     return where
 
 
@@ -553,13 +555,19 @@ def p_gate(w, st):
             if k == 1:
                 eff = True
             if eff in ("swap+split", "nonlocal"):
-                if not _chain_like(w):
+                if eff == "nonlocal" and w.fam == "cmps":
+                    # tensor_network_1d_compress documents open boundaries only (it returns an
+                    # open chain while the object's ``cyclic`` flag stays True)
+                    p.skip = "nonlocal-open-boundary-only"
+                elif not _chain_like(w):
                     p.skip = "1d-mode-needs-chain"
                 elif eff == "swap+split" and k > 2:
                     p.reject = "swap+split>2sites"
                 p.check_tags = True
                 p.utags = ()  # the chain routines take no tags
             mode_eff = eff
+            if eff == "nonlocal" and st.get("f", "n") in ("d", "b"):
+                p.root = "1d-dispatch-nonlocal-dagger"
         else:
             mode_eff = mode
             p.reject = _predict_gate_inds(tn, inds, mode)
@@ -590,7 +598,9 @@ def p_gate_inds(w, st):
     if isparam:
         qtn = _qtn()
         Gt = G.reshape(tuple(dw) * 2)
-        Garg = qtn.PArray(_param_fn, Gt)
+        from quimb.tensor.tensor_core import PArray
+
+        Garg = PArray(_param_fn, Gt)
     kw = dict(contract=mode)
     kw.update(_compress_kw(mode))
     kw.update(_flag_kw(st.get("f", "n")))
@@ -603,10 +613,16 @@ def p_gate_inds(w, st):
         inds = where[0]
         p.root = "inds-as-str" if len(where[0]) != 1 else None
     p.reject = _predict_gate_inds(tn, where, mode, isparam)
+    if isparam and len(where) == 1 and mode in (True, "split", "reduce-split"):
+        # PArray gates are not part of the documented domain of gate_inds; only
+        # what its own error message promises is exercised (lazy attachment
+        # works, multi-site contraction is rejected)
+        p.skip = "parametrized-one-site-contract-undocumented"
+        return p
     p.lazy = mode in LAZY
     p.check_tags = False
-    if mode in ("split-gate", "swap-split-gate", "auto-split-gate") and len(where) == 2 and "b" in tn.ind_map:
-        p.root = "label-b-present"
+    if mode in ("split-gate", "swap-split-gate", "auto-split-gate") and len(where) == 2 and len(tn.ind_map.get("b", ())) == 1:
+        p.root = "outer-label-b-present"
     fn = tn.gate_inds_ if st.get("inp") else tn.gate_inds
     p.call = lambda: fn(Garg, inds, **kw)
     p.newref = _vec_apply(w, Geff, where)
@@ -806,6 +822,8 @@ def p_submpo(w, st):
     p.check_tags = method != "lazy"
     p.newref = _vec_apply(w, _flagged(Amat, f), asites)
     p.tol = RTOL if method in ("direct", "lazy") else TOL_COMPRESS
+    if method in ("zipup-first", "zipup-oversample") and (min(asites), max(asites)) != (0, L - 1):
+        p.root = "submpo-inner-permute"
     return p
 
 
@@ -956,6 +974,35 @@ def _make_gauges(w, which):
     return g
 
 
+def _site_paths(w, a, b):
+    """all shortest paths of sites from a to b in the live network (breadth
+    first over 'shares a label'), in a deterministic order."""
+    tn = w.tn
+    nb = {s: [] for s in w.sites}
+    holder = {}
+    for s in w.sites:
+        (tid,) = tn.tag_map[tn.site_tag(s)]
+        holder[s] = set(tn.tensor_map[tid].inds)
+    for s in w.sites:
+        for r in w.sites:
+            if r != s and holder[s] & holder[r]:
+                nb[s].append(r)
+    frontier = [(a,)]
+    seen = {a}
+    while frontier:
+        done = [q for q in frontier if q[-1] == b]
+        if done:
+            return done
+        nxt = []
+        for q in frontier:
+            for r in nb[q[-1]]:
+                if r not in seen or r == b:
+                    nxt.append(q + (r,))
+        seen |= {q[-1] for q in nxt}
+        frontier = nxt
+    return []
+
+
 def p_gate_simple(w, st):
     """gate_simple_(G, where, gauges, renorm=False, cutoff=0.0): nearest
     neighbour, single site, and the long range fallback with its path
@@ -971,19 +1018,39 @@ def p_gate_simple(w, st):
         w.gauges = _make_gauges(w, st.get("g", "all"))
         # the gauges are part of the state: recompute the reference once
         w.ref = _dense(tn, w.labels, w.gauges)
-    for s in w.sites:
-        if len(tn.tag_map.get(tn.site_tag(s), ())) != 1:
-            p.skip = "needs-one-tensor-per-site"
-            return p
+    if not _chain_like(w):
+        # simple update works on one tensor per site that holds the site's physical label(s)
+        p.skip = "needs-one-tensor-per-site"
+        return p
     kw = {"max_bond": None, "cutoff": 0.0, "renorm": bool(st.get("renorm", False))}
     kw.update(_flag_kw(st.get("f", "n")))
-    if "path" in st and st["path"] is not None:
-        kw["path"] = _tt(st["path"]) if not isinstance(st["path"], int) else st["path"]
+    if st.get("path") is not None:
+        if st["path"] in ("seq", "seq-last"):
+            paths = _site_paths(w, where[0], where[1]) if k == 2 else []
+            if not paths:
+                p.skip = "no-path"
+                return p
+            kw["path"] = paths[0] if st["path"] == "seq" else paths[-1]
+        else:
+            kw["path"] = st["path"]  # int (cyclic choice among the shortest paths) or 'random'
     if st.get("m") is not None:
         kw["contract"] = st["m"]
     if k > 2:
         p.reject = "simple>2sites"
         p.rej_types = (NotImplementedError,)
+    bonded = True
+    if k == 2:
+        (ta,), (tb,) = (tn.tag_map[tn.site_tag(s)] for s in where)
+        bonded = bool(set(tn.tensor_map[ta].inds) & set(tn.tensor_map[tb].inds))
+        if not bonded:
+            if st.get("m") is not None:
+                # gate_opts (contract=...) are documented for the nearest neighbour gate only
+                p.skip = "contract-option-needs-bonded-pair"
+                return p
+            if w.kind == "op":
+                p.root = "simple-long-range-operator"
+    if k == 1 and isinstance(where[0], tuple) and not st.get("wt"):
+        p.root = "simple-bare-tuple-site"
     gauges = w.gauges
     p.gated = where
     p.tol = TOL_SIMPLE
@@ -1017,6 +1084,9 @@ def p_inds_with_tn(w, st):
     outer = tuple("l%d" % i for i in range(k)) if st.get("names") == "lr" else tuple("go%d" % i for i in range(k))
     T = qtn.Tensor(Gt, outer + inner, tags=["G"])
     form = st.get("m", "tensor")
+    if st.get("bond") in tn.ind_map:
+        p.skip = "user-gate-network-clashes-with-target-labels"
+        return p
     if form == "split" and k >= 2:
         gate = T.split((outer[0], inner[0]), cutoff=0.0, bond_ind=st.get("bond", "gb"))
     elif form == "tn":
@@ -1112,6 +1182,10 @@ def _describe(w, st):
 def do_step(w, st):
     """-> ('ok', outcome) | ('rej', what) | ('skip', what) | ('bad', [problems])"""
     qtn = _qtn()
+    if w.gauges is not None and st["e"] != "gate_simple":
+        # the bond weights are part of the state: only the simple-update gate knows about them
+        # (contracting or splitting across a weighted bond with a plain gate is a misuse)
+        return ("skip", "Precondition:%s:gauged-state-needs-gate_simple" % st["e"])
     p = ENTRIES[st["e"]](w, st)
     if p.skip:
         return ("skip", "Precondition:%s:%s" % (st["e"], p.skip))
@@ -1161,11 +1235,7 @@ def do_step(w, st):
                 probs.append(core.problem("%s: value differs from the reference, rel err %.3g" % (_describe(w, st), err), **_sig(w, st, "value", p)))
     else:
         ts, cnt = _scan(out, w.gauges)
-        got_outer = {l for l, c in cnt.items() if c == 1}
-        if w.gauges:
-            # a gauge vector makes its (2-tensor) bond appear three times; a
-            # gauge left on a bond that no longer exists is simply unused
-            got_outer = {l for l, c in collections.Counter(l for t in out.tensor_map.values() for l in t.inds).items() if c == 1}
+        got_outer = {l for l, c in cnt.items() if c == 1}  # multiplicities among the tensors only (gauge vectors not counted)
         if got_outer != set(labels):
             probs.append(
                 core.problem(
@@ -1317,3 +1387,533 @@ def _outcome(w, st):
 
 def replay(case):
     return table.replay(sys.modules[__name__], case)
+
+
+# --------------------------------------------------------------------------- #
+#                                enumeration                                  #
+# --------------------------------------------------------------------------- #
+
+C = "complex128"
+
+
+def _targets(tier):
+    q = tier == "quick"
+    T = {}
+    T["mps"] = [("mps", (2, 2, 2), (2, 3), C), ("mps", (2, 3, 2), (2, 3), C), ("mps", (2, 2, 2, 2), (2, 3), C), ("mps", (2, 3, 2, 2), (3, 2), C), ("mps", (2, 2, 2), (2, 3), "float64")]
+    T["cmps"] = [("cmps", (2, 2, 2), (2, 3), C), ("cmps", (2, 3, 2, 2), 2, C)]
+    T["mpo"] = [("mpo", (2, 2, 2), 2, C), ("mpo", (2, 3, 2), 2, C)]
+    T["peps"] = [("peps", 2, 2, 2, 2)]
+    T["gvec"] = [("gvec", "tree", (2, 3, 2, 2), 2), ("gvec", "ring", (2, 2, 3, 2), 2), ("gvec", "named", (2, 3, 2), 2)]
+    T["gop"] = [("gop", "tree", (2, 2, 3, 2), 2)]  # centre node: 2 bonds + 2 physical labels beside the shared bond -> the real sandwich reduce-split path
+    T["dense1d"] = [("dense1d", (2, 2, 2))]
+    T["raw"] = [("raw", ("a", "b", "c", "d"), (2, 3, 2, 2)), ("raw", ("p", "q", "s", "t"), (2, 3, 2, 2)), ("raw", ("l1", "r0", "l0", "r1"), (2, 2, 3, 2))]
+    T["tensor"] = [("tensor", ("a", "b", "c"), (2, 3, 2))]
+    if not q:
+        T["mps"] += [("mps", (3, 2, 2, 3, 2), (2, 3), C), ("mps", (3, 3, 3), 2, C)]
+        T["cmps"] += [("cmps", (2, 2, 2, 2, 2), 2, C)]
+        T["mpo"] += [("mpo", (2, 2, 3, 2), 2, C), ("cmpo", (2, 2, 2), 2, C)]
+        T["peps"] += [("peps", 2, 3, 2, 2), ("peps", 2, 2, 2, 3)]
+        T["gvec"] += [("gvec", "tri", (2, 2, 3), 2)]
+        T["gop"] += [("gop", "named", (2, 3, 2), 2), ("pepo", 2, 2, 2, 2)]
+        T["dense1d"] += [("dense1d", (3, 3))]
+    return T
+
+
+def _sites_of(t):
+    fam = t[0]
+    if fam in ("mps", "cmps", "mpo", "cmpo"):
+        return tuple(range(len(t[1])))
+    if fam in ("peps", "pepo"):
+        return tuple((i, j) for i in range(t[1]) for j in range(t[2]))
+    if fam in ("gvec", "gop"):
+        return GRAPHS[t[1]][0]
+    if fam == "dense1d":
+        return tuple(range(len(t[1])))
+    if fam in ("raw", "tensor"):
+        return tuple(t[1])
+    raise KeyError(fam)
+
+
+def _wheres(t, kmax, tier, k3="some"):
+    """every ordered tuple of distinct sites of size 1..2; size 3: every
+    ordered triple (thorough) or the ascending triples plus one rotated and
+    one reversed order per triple (quick)."""
+    sites = _sites_of(t)
+    out = []
+    for k in range(1, min(kmax, len(sites)) + 1):
+        if k < 3 or tier != "quick" or k3 == "all":
+            out += list(itertools.permutations(sites, k))
+        else:
+            for c in itertools.combinations(sites, 3):
+                out += [c, (c[1], c[2], c[0]), (c[2], c[1], c[0])]
+    return out
+
+
+def _modes_for(t):
+    fam = t[0]
+    if fam in ("mps", "cmps", "dense1d"):
+        return GENERIC + MODES_1D
+    return GENERIC
+
+
+def _cells_modes(tier):
+    """A: target x where x contract mode x {plain, transpose, dagger}."""
+    T = _targets(tier)
+    cells = []
+    flags = ("n", "t", "d") if tier == "quick" else ("n", "t", "d", "b")
+    for fam in ("mps", "cmps", "peps", "gvec", "dense1d"):
+        for t in T[fam]:
+            for where in _wheres(t, 3, tier):
+                for m in _modes_for(t):
+                    for f in flags:
+                        if f != "n" and _static_reject(t, where, m):
+                            continue  # a predicted rejection is not crossed with the flags
+                        cells.append({"t": t, "steps": ({"e": "gate", "w": where, "m": m, "f": f},)})
+    return cells
+
+
+def _static_reject(t, where, m):
+    """modes that reject every where of size 3 on a one-tensor-per-site target"""
+    return len(where) >= 3 and t[0] != "dense1d" and m in ("split", "reduce-split", "split-gate", "swap-split-gate", "swap+split")
+
+
+def _cells_ops(tier):
+    """B: target x where (k <= 2) x mode x operator kind x form, plus the
+    in-place spelling and the explicit 1-tuple ``where``."""
+    T = _targets(tier)
+    cells = []
+    fams = ("mps", "cmps", "peps", "gvec", "dense1d")
+    for fam in fams:
+        ts = T[fam] if tier != "quick" else T[fam][1:2] + T[fam][:1] if fam == "mps" else T[fam][:1]
+        for t in ts:
+            for where in _wheres(t, 2, tier):
+                kinds = ("generic", "real", "identity", "diag") + (("product", "swaplike") if len(where) == 2 else ())
+                for m in _modes_for(t):
+                    for kind in kinds:
+                        for form in ("mat", "ten"):
+                            if kind == "generic" and form == "mat":
+                                continue  # table A
+                            cells.append({"t": t, "steps": ({"e": "gate", "w": where, "m": m, "op": (kind, form)},)})
+                    cells.append({"t": t, "steps": ({"e": "gate", "w": where, "m": m, "inp": True},)})
+                    if len(where) == 2:
+                        cells.append({"t": t, "steps": ({"e": "gate", "w": where, "m": m, "wl": True},)})
+                    if len(where) == 1:
+                        cells.append({"t": t, "steps": ({"e": "gate", "w": where, "m": m, "wt": True},)})
+    return cells
+
+
+def _cells_tags(tier):
+    """C: lazy and contracting modes x propagate_tags x tags."""
+    T = _targets(tier)
+    cells = []
+    for fam in ("mps", "cmps", "peps", "gvec", "dense1d", "mpo", "gop"):
+        ts = T[fam] if tier != "quick" else T[fam][:1]
+        for t in ts:
+            for where in _wheres(t, 2, tier):
+                for m in GENERIC:
+                    for pt in ("sites", "register", False, True):
+                        for tags in (None, "GT"):
+                            whiches = (None,) if fam not in ("mpo", "gop") else (None, "upper", "lower")
+                            for wh in whiches:
+                                st = {"e": "gate", "w": where, "m": m, "pt": pt}
+                                if tags:
+                                    st["tags"] = tags
+                                if wh:
+                                    st["which"] = wh
+                                cells.append({"t": t, "steps": (st,)})
+    return cells
+
+
+NONLOCAL_METHODS = ("direct", "dm", "zipup", "zipup-first", "lazy")
+
+
+def _cells_1d(tier):
+    """D: the chain routines: gate_split, gate_with_auto_swap, swaps,
+    gate_nonlocal, gate_with_submpo, gate_with_mpo."""
+    T = _targets(tier)
+    cells = []
+    for fam in ("mps", "cmps"):
+        for t in T[fam]:
+            L = len(t[1])
+            pairs = list(itertools.permutations(range(L), 2))
+            for where in pairs:
+                for f in ("n", "t", "d"):
+                    for inp in (False, True):
+                        cells.append({"t": t, "steps": ({"e": "gate_split", "w": where, "f": f, "inp": inp},)})
+                    for sb in (True, False):
+                        for kind in ("generic", "swaplike", "product"):
+                            for form in ("mat", "ten"):
+                                cells.append({"t": t, "steps": ({"e": "gate_with_auto_swap", "w": where, "f": f, "sb": sb, "op": (kind, form)},)})
+                for m in ("swap_sites", "swap_to"):
+                    for inp in (False, True):
+                        cells.append({"t": t, "steps": ({"e": "swap", "w": where, "m": m, "inp": inp},)})
+            if fam == "cmps":
+                continue  # 1D compression is documented as open boundary only
+            for where in _wheres(t, 3, tier, k3="all"):
+                if len(where) < 2:
+                    continue
+                for m in NONLOCAL_METHODS:
+                    for f in ("n", "t"):  # gate_nonlocal documents transpose only
+                        for dims in (False, True):
+                            cells.append({"t": t, "steps": ({"e": "gate_nonlocal", "w": where, "m": m, "f": f, "dims": dims},)})
+                    for f in ("n", "t"):
+                        for wg in (False, True):
+                            cells.append({"t": t, "steps": ({"e": "gate_with_submpo", "w": where, "m": m, "f": f, "wgiven": wg},)})
+            for m in NONLOCAL_METHODS[:3]:
+                for f in ("n", "t"):
+                    for inp in (False, True):
+                        cells.append({"t": t, "steps": ({"e": "gate_with_mpo", "w": (), "m": m, "f": f, "inp": inp},)})
+    return cells
+
+
+def _cells_lazyop(tier):
+    """E: gate_with_op_lazy / gate_{upper,lower,sandwich}_with_op_lazy."""
+    T = _targets(tier)
+    cells = []
+    for fam in ("mps", "cmps", "peps", "gvec"):
+        for t in T[fam]:
+            specs = ["all"]
+            if fam in ("mps", "cmps"):
+                specs += [w for w in _wheres(t, 3, tier) if len(w) >= 2]
+            for a in specs:
+                for f in ("n", "t"):
+                    for inp in (False, True):
+                        cells.append({"t": t, "steps": ({"e": "op_lazy", "a": a, "f": f, "inp": inp},)})
+    for fam in ("mpo", "gop"):
+        for t in T[fam]:
+            specs = ["all"]
+            if fam == "mpo":
+                specs += [w for w in _wheres(t, 2, tier) if len(w) >= 2]
+            for a in specs:
+                for side in ("upper", "lower", "sandwich"):
+                    for f in ("n", "t") if side != "sandwich" else ("n", "d"):
+                        for inp in (False, True):
+                            cells.append({"t": t, "steps": ({"e": "op_lazy", "a": a, "m": side, "f": f, "inp": inp},)})
+    return cells
+
+
+def _cells_operator(tier):
+    """F: operator networks: gate(which=...) and its spellings x modes x
+    flags, gate_sandwich_inds, MPO.gate_sandwich_with_auto_swap."""
+    T = _targets(tier)
+    cells = []
+    flags = ("n", "t", "d")
+    for fam in ("mpo", "gop"):
+        for t in T[fam]:
+            for where in _wheres(t, 3, tier):
+                for m in GENERIC:
+                    for f in flags:
+                        if f != "n" and _static_reject(t, where, m):
+                            continue
+                        for wh in (None, "sandwich", "both", "upper", "lower", "m:upper", "m:lower", "m:sandwich"):
+                            st = {"e": "gate", "w": where, "m": m, "f": f}
+                            if wh:
+                                st["which"] = wh
+                            cells.append({"t": t, "steps": (st,)})
+                        for form in ("mat", "ten"):
+                            cells.append({"t": t, "steps": ({"e": "gate_sandwich_inds", "w": where, "m": m, "f": f, "op": ("generic", form)},)})
+                    if len(where) == 1:
+                        cells.append({"t": t, "steps": ({"e": "gate_sandwich_inds", "w": where, "m": m, "str": True},)})
+            if fam == "mpo" and t[0] == "mpo":
+                L = len(t[1])
+                for where in itertools.permutations(range(L), 2):
+                    for m in ("split", "reduce-split"):
+                        for f in ("n", "d"):
+                            for sb in (True, False):
+                                for strip in (False, True):
+                                    cells.append({"t": t, "steps": ({"e": "gate_sandwich_with_auto_swap", "w": where, "m": m, "f": f, "sb": sb, "strip": strip},)})
+                    for m in ("swap_sites", "swap_to"):
+                        cells.append({"t": t, "steps": ({"e": "swap", "w": where, "m": m},)})
+    return cells
+
+
+def _cells_simple(tier):
+    """G: simple update gating (gauges are part of the state)."""
+    T = _targets(tier)
+    cells = []
+    for fam in ("peps", "gvec", "mps", "cmps", "gop", "mpo"):
+        ts = T[fam] if tier != "quick" else T[fam][:2]
+        for t in ts:
+            if t[0] == "pepo":
+                continue
+            sites = _sites_of(t)
+            for where in _wheres(t, 3 if tier != "quick" else 2, tier):
+                for f in ("n", "t", "d"):
+                    for g in ("all", "half"):
+                        for form in ("mat", "ten"):
+                            st = {"e": "gate_simple", "w": where, "f": f, "g": g, "op": ("generic", form)}
+                            cells.append({"t": t, "steps": (st,)})
+                if len(where) == 2:
+                    for path in (0, 1, "seq", "seq-last", "random"):
+                        for f in ("n", "d"):
+                            cells.append({"t": t, "steps": ({"e": "gate_simple", "w": where, "path": path, "f": f},)})
+                    for m in ("split", "reduce-split"):
+                        cells.append({"t": t, "steps": ({"e": "gate_simple", "w": where, "m": m},)})
+                    cells.append({"t": t, "steps": ({"e": "gate_simple", "w": where, "renorm": True},)})
+                    cells.append({"t": t, "steps": ({"e": "gate_simple", "w": where, "inp": False},)})
+                else:
+                    cells.append({"t": t, "steps": ({"e": "gate_simple", "w": where, "wt": True},)})
+    return cells
+
+
+def _cells_raw(tier):
+    """H: plain networks with user labels (gate_inds incl. parametrised gates
+    and a label given as a bare string, gate_inds_with_tn), bare tensors."""
+    T = _targets(tier)
+    cells = []
+    for t in T["raw"]:
+        labels = t[1]
+        for where in _wheres(t, 3, tier, k3="all"):
+            for m in GENERIC:
+                if len(where) >= 3 and m in ("split-gate", "swap-split-gate"):
+                    # rejected for every where of size 3: one cell, not crossed with flags / forms
+                    cells.append({"t": t, "steps": ({"e": "gate_inds", "w": where, "m": m},)})
+                    continue
+                for f in ("n", "t", "d"):
+                    for form in ("mat", "ten"):
+                        cells.append({"t": t, "steps": ({"e": "gate_inds", "w": where, "m": m, "f": f, "op": ("generic", form)},)})
+                for kind in ("product", "swaplike", "diag", "identity"):
+                    if len(where) != 2 and kind in ("product", "swaplike"):
+                        continue
+                    cells.append({"t": t, "steps": ({"e": "gate_inds", "w": where, "m": m, "op": (kind, "mat")},)})
+                cells.append({"t": t, "steps": ({"e": "gate_inds", "w": where, "m": m, "tags": "GT", "inp": True},)})
+                if len(where) <= 2:
+                    cells.append({"t": t, "steps": ({"e": "gate_inds", "w": where, "m": m, "param": True},)})
+                if len(where) == 1:
+                    cells.append({"t": t, "steps": ({"e": "gate_inds", "w": where, "m": m, "str": True},)})
+        # gate_inds_with_tn
+        for where in _wheres(t, 2, tier):
+            for form in ("tensor", "tn", "split"):
+                for names in ("g", "lr"):
+                    for inp in (False, True):
+                        cells.append({"t": t, "steps": ({"e": "gate_inds_with_tn", "w": where, "m": form, "names": names, "inp": inp},)})
+                    cells.append({"t": t, "steps": ({"e": "gate_inds_with_tn", "w": where, "m": form, "names": names, "bond": "b"},)})
+            if len(where) == 1:
+                cells.append({"t": t, "steps": ({"e": "gate_inds_with_tn", "w": where, "m": "tensor", "str": True},)})
+            # one absent label (documented: both gate labels stay open)
+            for pos in range(len(where) + 1):
+                wa = where[:pos] + ("_absent",) + where[pos:]
+                if len(wa) <= 2:
+                    cells.append({"t": t, "steps": ({"e": "gate_inds_with_tn", "w": wa, "m": "tensor"},)})
+    for t in T["tensor"]:
+        for ind in t[1]:
+            for f in ("n", "t"):
+                for pi in (None, True, False):
+                    for inp in (False, True):
+                        for kind in ("generic", "real"):
+                            st = {"e": "tensor_gate", "w": (ind,), "f": f, "inp": inp, "op": (kind, "mat")}
+                            if pi is not None:
+                                st["pi"] = pi
+                            cells.append({"t": t, "steps": (st,)})
+    return cells
+
+
+def _first_steps(t, tier):
+    """menu of single steps used as FIRST event of a history."""
+    fam = t[0]
+    out = []
+    for where in _wheres(t, 2, tier):
+        for m in _modes_for(t):
+            st = {"e": "gate", "w": where, "m": m}
+            out.append(st)
+    return out
+
+
+def _cells_hist(tier):
+    """I: depth-2 histories: every (first step, second step) pair of the
+    single-step menu (where of size <= 2 x every contract mode; operators:
+    x {sandwich, upper, lower}); the second step uses a different operator
+    and alternates the flag so both orders of (plain, dagger) occur."""
+    T = _targets(tier)
+    cells = []
+    ts = [T["mps"][0], T["raw"][1]]
+    if tier != "quick":
+        ts += [T["mps"][1], T["cmps"][0], T["peps"][0], T["peps"][1], T["gvec"][0], T["mpo"][0], T["raw"][2]]
+    for t in ts:
+        fam = t[0]
+        if fam == "raw":
+            menu = []
+            for where in _wheres(t, 2, tier):
+                for m in GENERIC:
+                    menu.append({"e": "gate_inds", "w": where, "m": m})
+        elif fam in ("mpo",):
+            menu = []
+            for where in _wheres(t, 2, tier):
+                for m in GENERIC:
+                    for wh in (None, "upper"):
+                        st = {"e": "gate", "w": where, "m": m}
+                        if wh:
+                            st["which"] = wh
+                        menu.append(st)
+        else:
+            menu = _first_steps(t, tier)
+            if fam in ("mps", "cmps"):
+                L = len(t[1])
+                for where in itertools.permutations(range(L), 2):
+                    menu.append({"e": "gate_with_auto_swap", "w": where, "sb": False})
+                    menu.append({"e": "gate_nonlocal", "w": where, "m": "lazy"})
+            if fam in ("peps", "gvec"):
+                for where in _wheres(t, 2, tier):
+                    st = {"e": "gate_simple", "w": where}
+                    if len(where) == 1:
+                        st["wt"] = True  # the bare 2D coordinate is a known finding of table 'simple'
+                    menu.append(st)
+        cells.append((t, menu))
+    return cells
+
+
+def _hist_pairs(t, firsts, menu):
+    cells = []
+    for a in firsts:
+        for b in menu:
+            b2 = dict(b)
+            b2["n"] = 1
+            b2["f"] = "d" if (len(a["w"]) + len(b["w"])) % 2 else "n"
+            if b2["f"] == "d" and (b2["e"] == "gate_nonlocal" or (b2["e"] == "gate" and b2["m"] in ("nonlocal", "auto-mps"))):
+                b2["f"] = "t"  # gate_nonlocal documents transpose only (the dispatcher's dagger is table 'modes')
+            cells.append({"t": t, "steps": (dict(a), b2)})
+    return cells
+
+
+HIST3_MODES = (False, True, "split", "split-gate", "swap+split", "nonlocal")
+
+
+def _cells_hist3(tier):
+    """J (thorough): depth-3 histories on the 3-site open MPS over the menu
+    where (size <= 2) x {False, True, split, split-gate, swap+split,
+    nonlocal}."""
+    if tier == "quick":
+        return []
+    t = _targets(tier)["mps"][0]
+    menu = [{"e": "gate", "w": where, "m": m} for where in _wheres(t, 2, tier) for m in HIST3_MODES]
+    return [(t, menu)]
+
+
+TABLES = [
+    ("modes", _cells_modes),
+    ("ops", _cells_ops),
+    ("tags", _cells_tags),
+    ("chain", _cells_1d),
+    ("lazyop", _cells_lazyop),
+    ("operator", _cells_operator),
+    ("simple", _cells_simple),
+    ("raw", _cells_raw),
+    ("hist", _cells_hist),
+    ("hist3", _cells_hist3),
+]
+
+
+def _dedup(cells):
+    seen = set()
+    out = []
+    for c in cells:
+        k = core.digest(core.jsonable(c))
+        if k not in seen:
+            seen.add(k)
+            out.append(c)
+    return out
+
+
+SIG_CAP = 3
+
+
+def _install_violation_cap(ctx):
+    """One broken line of the gating core fails under hundreds of (family,
+    mode, flag, which) signatures, and every NEW signature is replayed three
+    times by the determinism gate (one fresh interpreter each).  Signatures
+    matching a known finding are always recorded; of the new ones at most
+    SIG_CAP per (entry, check) are handed to the runner, the rest are only
+    counted (``violations.more-of[entry:check]``) - the run fails either way
+    and the recorded cases are the first in enumeration order."""
+    known = core.load_known(ctx.prop_id)
+    orig = ctx.violation
+    groups = collections.Counter()
+
+    def violation(prob, case):
+        sig = prob["sig"]
+        k = core.sig_key(sig)
+        if k not in ctx.viol and core.match_known(sig, known) is None:
+            g = "%s:%s" % (sig.get("entry"), sig.get("check"))
+            if groups[g] >= SIG_CAP:
+                ctx.counters["violations.more-of[%s]" % g] += 1
+                return
+            groups[g] += 1
+        orig(prob, case)
+
+    ctx.violation = violation
+
+
+def run(ctx):
+    only = ctx.opts.get("only")
+    quick = ctx.tier == "quick"
+    ctx.rule = (
+        "every cell (target network, one or two gating steps) of the tables modes / ops / tags / chain / lazyop / operator / simple / raw / hist is "
+        "evaluated on the real quimb entry point and followed by the full oracle (dense form by one numpy einsum = operator embedded on `where` in "
+        "the given order times the original; outer label set; site tags; class and naming); a case is (target family + dims + bonds, entry point, "
+        "ordered where, mode / method, transpose/dagger flag, operator kind and form, tag options, in-place spelling[, first step]); it is "
+        "non-trivial when the operator is not the identity and the target has more than one site"
+    )
+    ctx.bounds = {
+        "targets": core.jsonable(_targets(ctx.tier)),
+        "where": "every ordered tuple of distinct sites of size 1..2; size 3: " + ("ascending + one rotated + the reversed order per triple" if quick else "every ordered triple"),
+        "modes": [str(m) for m in GENERIC + MODES_1D],
+        "flags": "plain, transpose, dagger" + ("" if quick else ", dagger+transpose"),
+        "operators": "generic complex, generic real, identity, diagonal, product, swap-like (rank one across the gate); as matrix and as 2k-tensor",
+        "nonlocal_methods": list(NONLOCAL_METHODS),
+        "history_depth": "2" if quick else "2 (8 targets), 3 on the 3-site open MPS with 6 modes",
+        "max_bond/cutoff": "None / 0.0 everywhere",
+    }
+    ctx.assumptions += [
+        "split / reduce-split need two distinct tensors sharing exactly one bond and act on <= 2 sites; split-gate / swap-split-gate on <= 2 sites; parametrised gates on > 1 site need contract=False (ValueError predicted from the pre-state, anything else is a violation)",
+        "the 1D chain routines (swap+split, nonlocal, gate_split, gate_with_auto_swap, gate_nonlocal, gate_with_submpo/mpo, swaps) are offered only while the network has one tensor per site holding that site's label (counted as Precondition rejections otherwise)",
+        "gate_nonlocal / gate_with_submpo / gate_with_mpo only on open chains (tensor_network_1d_compress documents open boundaries) and with the deterministic methods direct, dm, zipup, zipup-first, lazy; the full method table is C09's",
+        "gate_upper(G) = E M, gate_lower(G) = M E^T, gate_sandwich(G) = E M E^+; dagger / transpose replace G by G^+ / G^T in each; dagger and transpose together mean dagger (documented: transpose is implied by dagger)",
+        "gate_simple: renorm=False for exactness (renorm=True compared up to a positive factor), hand-made positive gauges on all or every second bond are part of the state's denotation; tolerance 1e-7 (default smudge 1e-12, long range gate split with the default cutoff 1e-10)",
+        "dm / zipup compressions are compared to 1e-7 (square roots of eigenvalues), everything else to 1e-9 relative to the largest entry",
+        "tags: in lazy modes the new gate tensors must carry exactly requested tags + the documented propagate_tags set; in contracting modes the tensor holding a site's label keeps the site tag; the chain routines take no tags",
+        "gate_fit_local_ (variational, approximate by design) is not asserted",
+    ]
+    _install_violation_cap(ctx)
+    for name, gen in TABLES:
+        if only and name not in only.split(","):
+            continue
+        if name == "hist":
+            # phase 1: the single-step menu; phase 2: every (accepted and
+            # correct first step) x (menu) pair.  First steps that are
+            # rejected or violating are cells of the depth-1 tables.
+            cells = []
+            nmenu = 0
+            for t, menu in gen(ctx.tier):
+                res = ctx.pmap("cell_fn", [{"t": t, "steps": (dict(a),)} for a in menu])
+                firsts = [a for a, r in zip(menu, res) if isinstance(r, dict) and r.get("st") == "ok"]
+                nmenu += len(menu)
+                ctx.counters["hist.menu[%s]" % (t[0],)] += len(menu)
+                ctx.counters["hist.first_steps_ok[%s]" % (t[0],)] += len(firsts)
+                cells += _hist_pairs(t, firsts, menu)
+        elif name == "hist3":
+            cells = []
+            for t, menu in gen(ctx.tier):
+                res = ctx.pmap("cell_fn", [{"t": t, "steps": (dict(a),)} for a in menu])
+                firsts = [a for a, r in zip(menu, res) if isinstance(r, dict) and r.get("st") == "ok"]
+                pairs = _hist_pairs(t, firsts, menu)
+                res = ctx.pmap("cell_fn", pairs)
+                okpairs = [c for c, r in zip(pairs, res) if isinstance(r, dict) and r.get("st") == "ok"]
+                ctx.counters["hist3.prefixes_ok"] += len(okpairs)
+                for c in okpairs:
+                    a, b = c["steps"]
+                    for d in menu:
+                        d2 = dict(d)
+                        d2["n"] = 2
+                        d2["f"] = "t" if (len(a["w"]) + len(d["w"])) % 2 else "n"
+                        cells.append({"t": t, "steps": (a, b, d2)})
+            if not cells:
+                continue
+        else:
+            cells = _dedup(gen(ctx.tier))
+        if ctx.opts.get("limit"):
+            cells = cells[: int(ctx.opts["limit"])]
+            ctx.cap("--opt limit=%s used" % ctx.opts["limit"])
+        t0 = ctx.elapsed()
+        n_ok, n_rej, n_bad = table.run(ctx, "cell_fn", cells, name=name)
+        ctx.notes.setdefault("table_wall_s", {})[name] = round(ctx.elapsed() - t0, 1)
+        ctx.subproducts.append("%s: %d cells complete (%d evaluations ok, %d rejections, %d violating)" % (name, len(cells), n_ok, n_rej, n_bad))
